@@ -1040,6 +1040,18 @@ impl Session {
             return Ok(());
         }
 
+        let padding_factory = {
+            let padding_guard = self.padding.read().await;
+            padding_guard.clone()
+        };
+        #[cfg(feature = "verif")]
+        crate::verif::point("wp.after_padding_read").await;
+
+        // Take the writer before drawing the packet number: numbers must be
+        // handed out in the order in which packets reach the transport, or
+        // concurrent writers would shape packet k with the line of another index.
+        let mut writer = self.writer.lock().await;
+
         // Increment packet counter. Session packets are numbered from 1:
         // packet 0 is the authentication preamble (line 0 of the scheme).
         let pkt = self
@@ -1048,12 +1060,6 @@ impl Session {
             + 1;
         #[cfg(feature = "verif")]
         crate::verif::point("wp.after_counter").await;
-        let padding_factory = {
-            let padding_guard = self.padding.read().await;
-            padding_guard.clone()
-        };
-        #[cfg(feature = "verif")]
-        crate::verif::point("wp.after_padding_read").await;
         let stop = padding_factory.stop();
 
         if pkt >= stop {
@@ -1062,7 +1068,6 @@ impl Session {
             // For now, just write directly
             #[cfg(feature = "verif")]
             crate::verif::point("wp.before_writer_stop").await;
-            let mut writer = self.writer.lock().await;
             if let Err(e) = writer.write_all(&buffer).await {
                 drop(writer);
                 return Err(self.handle_io_error("write_no_padding_stop", e).await);
@@ -1081,7 +1086,6 @@ impl Session {
         if pkt_sizes.is_empty() {
             #[cfg(feature = "verif")]
             crate::verif::point("wp.before_writer_nosizes").await;
-            let mut writer = self.writer.lock().await;
             if let Err(e) = writer.write_all(&buffer).await {
                 drop(writer);
                 return Err(self.handle_io_error("write_no_padding_sizes", e).await);
@@ -1095,8 +1099,6 @@ impl Session {
 
         #[cfg(feature = "verif")]
         crate::verif::point("wp.before_writer").await;
-        let mut writer = self.writer.lock().await;
-
         for size in pkt_sizes {
             let remain_payload_len = buffer.len();
 
